@@ -302,8 +302,6 @@ def _scan_function(ctx: Ctx, m: pf.Module, qual: str, fn: pf.FuncDef, imports: D
                 if isinstance(t, ast.Subscript) and isinstance(t.value, ast.Name) and t.value.id in taint.session_names \
                         and pf.const_str(t.slice) == 'next' and node.value is not None:
                     _check_sink(ctx, m, qual, fn, taint, 'R2', "session['next'] store", node.value, node)
-        elif isinstance(node, ast.Call) and False:
-            pass
     # other ways of storing `next` in the session that we do not model
     for node in pf.walk_shallow(fn):
         if isinstance(node, ast.Call) and isinstance(node.func, ast.Attribute) and isinstance(node.func.value, ast.Name) \
@@ -371,7 +369,6 @@ def _check_validator(ctx: Ctx, m: pf.Module, imports: Dict[str, str]) -> int:
     weak_seen = False
     for a in atoms:
         k = absdom.atom_key(a)
-        names_used = pf.names_in(a)
         # anything that looks at the netloc / domains through prefix, suffix or substring is the recognised wrong shape
         mentions_netloc = any(_is_urlparse_netloc(fn, n, imports) is not None for n in ast.walk(a) if isinstance(n, (ast.Name, ast.Attribute)))
         weak = [pf.nsrc(c.func) for c in ast.walk(a) if isinstance(c, ast.Call) and isinstance(c.func, ast.Attribute)
